@@ -5,6 +5,7 @@
   spec: `Oryx.Spec.Ws` (`serialise`/`parse`).
 -/
 import Oryx.Proofs.WsSession
+import Oryx.Proofs.WsHandshake
 namespace Oryx.Props.C13
 open Oryx Oryx.WsWrite Oryx.Spec.Ws Oryx.Gen.Websocket
 
@@ -141,6 +142,107 @@ theorem C13_session (isServer deflate : Bool) (B : Nat) (hB : 1 ≤ B) (keys : L
       t.msgs = msgs.map (fun m => { ty := m.1, compressed := deflate, data := (m.2.map WOp.data).flatten }) ∧
       t.final.replies = [] ∧ t.err = .ueof :=
   WsSession.session_roundtrip isServer deflate B hB keys hK msgs hall
+
+/-! ### the opening handshake (Dial / Upgrade, accept key, extension negotiation)
+
+Model.WsHandshake: util.go's octet classes and parsers, the decision and response of `Upgrader.Upgrade`, the request of
+`Dialer.Dial` and its check of the response. `ak` is `computeAcceptKey` (SHA-1 and base64 are a parameter; the driver
+compares the library's value with an independent computation over the GUID gated below). -/
+
+open Oryx.Model.WsHs in
+/-- util.go's token octets are exactly RFC 7230's `tchar`. -/
+theorem hs_token_octets : ∀ c : UInt8, isTokenOctet c = isTchar c := token_octet_is_tchar
+
+open Oryx.Model.WsHs in
+/-- `tokenListContainsValue` on a well-formed `1#token` header value (tokens separated by commas, optional white
+space around them) answers whether one of the tokens is `value` up to case. -/
+theorem hs_token_list (l : List Elem) (hl : l ≠ []) (hwf : ∀ e ∈ l, e.wf) (value : Bytes) :
+    tlcvOne (renderElems l) value = l.any (fun e => eqFoldC e.tok value) := tlcvOne_spec l hl hwf value
+
+open Oryx.Model.WsHs in
+/-- The list parsers of util.go terminate: the fuel of the two loops is never exhausted. -/
+theorem hs_parsers_terminate (s value : Bytes) (acc : List Ext) :
+    (tlcvOneF (s.length + 1) s value).isSome = true ∧ (parseExtValueF (s.length + 1) s acc).isSome = true :=
+  ⟨tlcv_fuel s value, parseExt_fuel s acc⟩
+
+open Oryx.Model.WsHs in
+/-- **The server's decision, stated outright.** `Upgrade` sets a session up exactly for a GET request that lists
+`upgrade` in Connection, `websocket` in Upgrade and `13` in Sec-Websocket-Version, comes from an allowed origin, has
+a non-empty key and has not sent anything after its header block (and the application did not try to set the
+extensions header itself). -/
+theorem hs_server_decision (ak : Bytes → Bytes) (u : Upgrader) (rh : Option Header) (r : Request) :
+    (∃ l c s, upgrade ak u rh r = .accept l c s) ↔ acceptable u rh r = true := upgrade_accept_iff ak u rh r
+
+open Oryx.Model.WsHs in
+/-- What an accepted request gets: compression exactly when the server enabled it AND the client offered
+permessage-deflate; the accept key of the request's challenge; the selected subprotocol; the fixed response lines. -/
+theorem hs_server_response (ak : Bytes → Bytes) (u : Upgrader) (rh : Option Header) (r : Request) (l : Header) (c : Bool) (s : Bytes)
+    (h : upgrade ak u rh r = .accept l c s) :
+    c = (u.enableCompression && offersPmd r) ∧ s = selectSubprotocol u r rh ∧
+    l = fixedLines (ak (hfirst r.header (ascii "Sec-Websocket-Key"))) s c ++
+        ((rh.getD []).filter (fun p => p.1 != ascii "Sec-Websocket-Protocol")).map (fun p => (p.1, p.2.map sanitize)) :=
+  upgrade_accept_shape ak u rh r l c s h
+
+open Oryx.Model.WsHs in
+/-- **The client's decision, stated outright.** `Dial` returns a connection exactly for a 101 response whose Upgrade
+and Connection values fold to `websocket` / `upgrade` and whose accept key is the one of ITS challenge; compression is
+on exactly when the response carries permessage-deflate, and then only with both no_context_takeover parameters
+(otherwise the handshake fails as invalid, see `hs_client_bad`). -/
+theorem hs_client_decision (ak : Bytes → Bytes) (key : Bytes) (status : Nat) (h : Header) (c : Bool) (sub : Bytes) :
+    clientCheck ak key status h = .accept c sub ↔
+      responseOk ak key status h = true ∧ sub = hfirst h (ascii "Sec-Websocket-Protocol") ∧
+      (match answeredPmd h with
+       | none => c = false
+       | some e => c = true ∧ extHas e snct = true ∧ extHas e cnct = true) := client_accept_iff ak key status h c sub
+
+open Oryx.Model.WsHs in
+theorem hs_client_bad (ak : Bytes → Bytes) (key : Bytes) (status : Nat) (h : Header) :
+    clientCheck ak key status h = .badHandshake ↔ responseOk ak key status h = false := client_bad_iff ak key status h
+
+open Oryx.Model.WsHs in
+/-- **The library's client and server agree** (the clause "sessions set up through the library's own opening
+handshake obey the same" rests on this): for every pair of configurations, every non-empty challenge key and every
+set of extra request headers that does not use one of the handshake's own names, the server accepts the request the
+client writes, the client accepts the response the server writes, and both ends hold the SAME compression setting —
+on exactly when both sides enabled it — and the same subprotocol. -/
+theorem hs_agree (ak : Bytes → Bytes) (d : Dialer) (u : Upgrader) (key : Bytes) (reqHdr : Header)
+    (hkey : key ≠ []) (horigin : u.originOk = true)
+    (huser : ∀ p ∈ reqHdr, canon p.1 ∉ requestNames ∧ (d.subprotocols.isEmpty = false → canon p.1 ≠ ascii "Sec-Websocket-Protocol")) :
+    ∃ lines sub,
+      handshake ak d u key reqHdr =
+        some (.accept lines (d.enableCompression && u.enableCompression) sub,
+              some (.accept (d.enableCompression && u.enableCompression) sub)) :=
+  handshake_agree ak d u key reqHdr hkey horigin huser
+
+/-- gate: the GUID hashed into the accept key is RFC 6455's (regenerated from util.go on every run) -/
+example : Oryx.Gen.Websocket.keyGUID = "258EAFA5-E914-47DA-95CA-C5AB0DC85B11" := by decide
+example : Oryx.Gen.Websocket.isTokenOctet = 1 ∧ Oryx.Gen.Websocket.isSpaceOctet = 2 := by decide
+
+section
+open Oryx.Model.WsHs
+/-- non-vacuity: a concrete handshake (compression on both sides, subprotocol `chat`, an extra Origin header) -/
+example :
+    handshake (fun k => k ++ ascii "+accept") { enableCompression := true, subprotocols := [ascii "chat", ascii "superchat"] }
+      { enableCompression := true, subprotocols := some [ascii "superchat", ascii "chat"] } (ascii "dGhlIHNhbXBsZSBub25jZQ==")
+      [(ascii "Origin", [ascii "http://example.com"])] =
+    some (.accept (fixedLines (ascii "dGhlIHNhbXBsZSBub25jZQ==+accept") (ascii "superchat") true) true (ascii "superchat"),
+          some (.accept true (ascii "superchat"))) := by decide +kernel
+/-- the hypotheses of `hs_agree` are met by that configuration -/
+example : ∀ p ∈ [(ascii "Origin", [ascii "http://example.com"])],
+    canon p.1 ∉ requestNames ∧ ((([ascii "chat"] : List Bytes).isEmpty = false) → canon p.1 ≠ ascii "Sec-Websocket-Protocol") := by
+  decide +kernel
+/-- a well-formed token list: `keep-alive , Upgrade` contains `upgrade` -/
+example : tlcvOne (renderElems [⟨[], ascii "keep-alive", [32]⟩, ⟨[32], ascii "Upgrade", []⟩]) (ascii "upgrade") = true := by
+  decide +kernel
+/-- a third-party client that offers another extension first is still answered with compression -/
+example : offersPmd { method := ascii "GET", header := [(ascii "Sec-Websocket-Extensions", [ascii "foo; a=\"b,c\", permessage-deflate; client_max_window_bits"])] } = true := by
+  decide +kernel
+/-- a response with permessage-deflate but without client_no_context_takeover is refused as invalid compression -/
+example : clientCheck id (ascii "k") 101
+    [(ascii "Upgrade", [ascii "websocket"]), (ascii "Connection", [ascii "Upgrade"]), (ascii "Sec-Websocket-Accept", [ascii "k"]),
+     (ascii "Sec-Websocket-Extensions", [ascii "permessage-deflate; server_no_context_takeover"])] = .invalidCompression := by
+  decide +kernel
+end
 
 /-! ### non-vacuity -/
 
